@@ -28,6 +28,22 @@ func (err errAOFHook) Error() string {
 	return fmt.Sprintf("hook: %v", err.err)
 }
 
+// openAppendFile opens the live AOF, creating it when there is none.
+// AOFSHRINK swaps files with two renames: live to "-bak", then "-shrink" to
+// live. A process that dies between the two leaves no live file, and starting
+// on an empty one would silently drop the whole dataset, so the backup, which
+// is the complete log at that moment, is put back first.
+func openAppendFile(name string) (*os.File, error) {
+	if _, err := os.Stat(name); os.IsNotExist(err) {
+		if _, err := os.Stat(name + "-bak"); err == nil {
+			if err := os.Rename(name+"-bak", name); err != nil {
+				return nil, err
+			}
+		}
+	}
+	return os.OpenFile(name, os.O_CREATE|os.O_RDWR, 0600)
+}
+
 func (s *Server) loadAOF() (err error) {
 	fi, err := s.aof.Stat()
 	if err != nil {
